@@ -1,3 +1,4 @@
+import MiniconfVerif.Lemmas.GenTieLeaf
 import MiniconfVerif.Lemmas.GenTieImpls
 import MiniconfVerif.Lemmas.GenTie
 import MiniconfVerif.Lemmas.WalkStruct
@@ -152,5 +153,28 @@ children and their order, callback arguments `(index, name, len)`, `Inner(1)` on
 `increment` on the way up.  The transparent wrappers (`Option`, `Cell`, `RefCell`, `Box`, `Rc`, `Arc`, both `Weak`s,
 `Cow`, `Mutex`, `RwLock`, `&T`, `&mut T`) are checked by the translator to be the plain delegation to `T`. -/
 theorem source_containers_are_model : ContainerTies := containerTies
+
+
+open MiniconfVerif.Gen MiniconfVerif.GenTie in
+/-- The by-key functions of `Leaf<T>`, `StrLeaf<T>` and `Deny<T>` **as translated from leaf.rs** (`Gen/Leaf.lean`; the key
+source's `finalize`, the value's (de)serializer and `T::try_from(&str)` as parameters) are the model's walk at a leaf:
+surplus keys are reported (`TooLong`) before the value is touched, (de)serializer failures are `Inner(0)`, the stored
+value changes exactly on a successful deserialization, `StrLeaf` refuses `Any` access and `Deny` every access — after
+the keys were finalized. -/
+theorem source_leaves_are_model (io : Io) (v : Val) (ks : KeySrc) :
+    (∀ ty, resOfGen (Leaf.Leaf.serialize_by_key finM (serM io (.leaf ty) v) v ks ()) =
+        (Tree.walk io .ser (.leaf (.leaf ty) v) ks).res ∧
+      resOfGen (Leaf.Leaf.deserialize_by_key finM (deM io (.leaf ty)) v ks ()).2 =
+        (Tree.walk io .de (.leaf (.leaf ty) v) ks).res ∧
+      some (Leaf.Leaf.deserialize_by_key finM (deM io (.leaf ty)) v ks ()).1 =
+        valOf (Tree.walk io .de (.leaf (.leaf ty) v) ks).tree) ∧
+    (∀ variants, resOfGen (Leaf.StrLeaf.serialize_by_key finM (serM io (.strLeaf variants) v) v ks ()) =
+        (Tree.walk io .ser (.leaf (.strLeaf variants) v) ks).res ∧
+      resOfGen (Leaf.StrLeaf.deserialize_by_key finM (deStrM io (.strLeaf variants)) (tryFromM variants) v ks ()).2 =
+        (Tree.walk io .de (.leaf (.strLeaf variants) v) ks).res) ∧
+    (∀ ty op, (Tree.walk io op (.leaf (.deny ty) v) ks).tree = .leaf (.deny ty) v) :=
+  ⟨fun ty => ⟨(leafLeaf_tie io ty v ks).2.1, (leafLeaf_tie io ty v ks).2.2.1.1, (leafLeaf_tie io ty v ks).2.2.1.2⟩,
+   fun vs => ⟨(strLeaf_tie io vs v ks).1, (strLeaf_tie io vs v ks).2.1.1⟩,
+   fun ty op => (denyLeaf_tie io ty v ks op).1⟩
 
 end MiniconfVerif.C02
